@@ -42,7 +42,7 @@ Theorem C03_carbon_deficit_declined : forall O db ban fuel,
   forall t tmsg ins rows st, run O db ban fuel t tmsg ins = Done (rows, st) ->
   Forall2 (fun s r => carbon_of O s = CReactants ->
                       (forall m ru, impute O s = ImpOk m ru -> carbon_of O s <> CReactants) -> solved r = false)
-          (admitted O ins) rows.
+          (kept_inputs O ins) rows.
 Proof. intros O db ban fuel H2. exact (run_carbon_deficit_declined O db ban fuel H2). Qed.
 
 (* H1 and H3 discharged: impute_reaction's control flow is modelled (Model/Impute.v; the answers of build_compounds + merge, of
@@ -60,7 +60,7 @@ Qed.
 Theorem C03_carbon_deficit_declined_refined : forall O I db ban fuel,
   (forall r, bal (refine O I) (rxn (rb_water (refine O I) r)) = true -> rxn (rb_water (refine O I) r) = rxn r) ->
   forall t tmsg ins rows st, run (refine O I) db ban fuel t tmsg ins = Done (rows, st) ->
-  Forall2 (fun s r => carbon_of O s = CReactants -> solved r = false) (admitted (refine O I) ins) rows.
+  Forall2 (fun s r => carbon_of O s = CReactants -> solved r = false) (kept_inputs (refine O I) ins) rows.
 Proof.
   intros O I db ban fuel H2 t tmsg ins rows st H.
   eapply Forall2_impl; [|exact (run_carbon_deficit_declined (refine O I) db ban fuel H2 t tmsg ins rows st H)].
@@ -89,7 +89,7 @@ Theorem C03_remaining_clauses_from_composition_facts : forall O I db ban fuel,
   (forall p n k, getd (decomp O (p ++ repeat_str ".O" n)) k = (getd (decomp O p) k + Z.of_nat n * water k)%Z) ->
   forall t tmsg ins rows st, run (refine O I) db ban fuel t tmsg ins = Done (rows, st) ->
   (forall r, In r rows -> solved r = true -> issue r = None \/ issue r = Some "") /\
-  Forall2 (fun s r => carbon_of O s = CReactants -> solved r = false) (admitted (refine O I) ins) rows.
+  Forall2 (fun s r => carbon_of O s = CReactants -> solved r = false) (kept_inputs (refine O I) ins) rows.
 Proof.
   intros O I db ban fuel A B t tmsg ins rows st H.
   pose proof (water_never_balances (refine O I) A B) as H2.
